@@ -157,7 +157,7 @@ def stored_cliques(init):
             raise AnalysisError('JunctionTree.__init__: unrecognised retention test `%s`' % U(t)[:60])
         drop = t.operand
         # a local predicate: look at its body
-        if isinstance(drop, ast.Call) and isinstance(drop.func, ast.Name) and len(drop.args) == 1:
+        if isinstance(drop, ast.Call) and isinstance(drop.func, ast.Name) and len(drop.args) == 1 and drop.func.id not in ('any', 'all'):
             fdef = [n for n in init.node.body if isinstance(n, ast.FunctionDef) and n.name == drop.func.id]
             if len(fdef) == 1 and len(fdef[0].body) == 1 and isinstance(fdef[0].body[0], ast.Return) and len(fdef[0].args.args) == 1:
                 p_ = fdef[0].args.args[0].arg
